@@ -102,8 +102,8 @@ def build_all(prop, cfg, log):
         except Exception:
             res["extract_report"] = {}
         targets = ([] if cfg.get("no_props") else ["theories/Props/%s.vo" % prop]) + ["theories/" + t for t in cfg.get("extra_targets", [])]
-        if cfg.get("no_props"):
-            targets += ["theories/Base/Check.vo"] + ["theories/" + r.replace(".", "/") + ".vo" for r in cfg.get("requires", [])]
+        # the modules the correspondence files import are always built, whether or not Props depends on them
+        targets += ["theories/Base/Check.vo"] + ["theories/" + r.replace(".", "/") + ".vo" for r in cfg.get("requires", [])]
         rc, out, dt = sh(["make", "-j16"] + targets, cwd=COQ, timeout=cfg.get("make_timeout", 1500))
         log.append(("make", rc, dt, out[-6000:]))
         if rc != 0:
